@@ -85,6 +85,11 @@ func (h *connectHandler) ContentTypes() map[string]struct{} {
 
 func (*connectHandler) SetTimeout(request *http.Request) (context.Context, context.CancelFunc, error) {
 	timeout := request.Header.Get(connectHeaderTimeout)
+	if n := len(request.Header[connectHeaderTimeout]); n > 1 {
+		// A repeated field is one comma-separated list to HTTP, and that is not
+		// a timeout, whatever the lines say one by one.
+		return nil, nil, errorf(CodeInvalidArgument, "parse timeout: %d timeout headers", n)
+	}
 	if timeout == "" {
 		if len(request.Header[connectHeaderTimeout]) > 0 {
 			// Present but empty is not the same as absent: it is a timeout
